@@ -65,12 +65,27 @@ pub fn build_scenario(
     let ops = workload::gen_ops(&mut o, &img.bytes, &model, max_ops);
     let profile = workload::draw_profile(&mut io);
     let len = img.bytes.len() as u64;
+    // C08 only: some streams do not support SeekFrom::End (the length probe fails); the
+    // bounds must not silently disappear with it
+    let overrides = if prop == "C08" && io.chance(1, 16) {
+        vec![crate::reader::Override {
+            op_id: 0,
+            call: 0,
+            fault: crate::reader::Fault::Fail {
+                kind: std::io::ErrorKind::Other,
+                sticky: false,
+            },
+        }]
+    } else {
+        Vec::new()
+    };
     let reader = ReaderCfg {
         run_seed,
         profile,
         init_pos: io.below(len + 6),
-        overrides: Vec::new(),
+        overrides,
         heal_at_epilogue: false,
+            clean_after_failure: false,
     };
     let mut recipe = img.recipe.clone();
     recipe.set("class_sig", crate::json::J::u(img.class_sig));
@@ -319,6 +334,13 @@ pub fn check_c08(sc: &Scenario, r: &EquivRun, facts: &mut RunFacts) -> Option<Vi
         })
     };
     let len = r.stream.stream_len;
+    // After open, ranges are designated by the stream's *own* view of the header tables
+    // (whether that view is right is C07's subject); open itself is judged by the model.
+    let mut own = r.model.clone();
+    if r.stream.opened {
+        own.shdrs = r.stream.own_shdrs.clone();
+        own.phdrs = r.stream.own_phdrs.clone();
+    }
     for st in r.stream.steps.iter() {
         let open_op = Op::Open;
         let op = if st.op_index == 0 {
@@ -372,7 +394,7 @@ pub fn check_c08(sc: &Scenario, r: &EquivRun, facts: &mut RunFacts) -> Option<Vi
             );
         }
         // 3. oversized claims are errors
-        if st.op_index > 0 && oversized_claim(&r.model, op) {
+        if st.op_index > 0 && oversized_claim(&own, op) {
             push_probe(facts, "oversize_claim_seen", 1);
             if succeeded(st.out.tag) {
                 return v(
@@ -387,7 +409,7 @@ pub fn check_c08(sc: &Scenario, r: &EquivRun, facts: &mut RunFacts) -> Option<Vi
         }
         // 4. lazy I/O: delivered bytes ⊆ designated set
         if !st.delivered.is_empty() {
-            let des = designated_set(&r.model, op);
+            let des = designated_set(if st.op_index == 0 { &r.model } else { &own }, op);
             for &(a, b) in st.delivered.iter() {
                 if let Some((x, y)) = des.first_uncovered(a, b) {
                     return v(
